@@ -273,12 +273,19 @@ def run(ctx):
                 if m is not None and m != enc(got):
                     ctx.broke("correspondence:subset", "top %s keep %s: impl %s model %s" % (enc(d), arg, enc(got), m))
                 # copies are independent: edit the source after subsetting/copying, the derived topology must not change
-                for name, mk in (("copy", lambda t: t.copy()), ("deepcopy", pycopy.deepcopy), ("pickle", lambda t: pickle.loads(pickle.dumps(t)))):
+                as_traj = lambda t: md.Trajectory(np.zeros((1, t.n_atoms, 3), dtype=np.float32), t)
+                for name, mk in (("copy", lambda t: t.copy()), ("deepcopy", pycopy.deepcopy), ("pickle", lambda t: pickle.loads(pickle.dumps(t))),
+                                 # … and what keeps every atom: the result is a topology of its own all the same
+                                 ("subset of all atoms", lambda t: t.subset(list(range(t.n_atoms)))),
+                                 ("atom_slice of all atoms", lambda t: as_traj(t).atom_slice(np.arange(t.n_atoms)).topology),
+                                 ("restrict_atoms to all atoms", lambda t: as_traj(t).restrict_atoms(np.arange(t.n_atoms), inplace=False).topology),
+                                 ("slice of the trajectory", lambda t: as_traj(t)[0:1].topology)):
                     src = build(md, d)
                     cp = mk(src)
-                    if enc(dump(cp)) != enc(d):
+                    plain = name in ("copy", "deepcopy", "pickle")
+                    if plain and enc(dump(cp)) != enc(d):
                         viol("%s|value" % name, "%s of %s gives %s" % (name, enc(d), enc(dump(cp))), dict(kind=name, top=enc(d)))
-                    if not (cp == src) or hash(cp) != hash(src):
+                    if plain and (not (cp == src) or hash(cp) != hash(src)):
                         viol("%s|eq-hash" % name, "%s(t) == t is %s, hashes equal: %s" % (name, cp == src, hash(cp) == hash(src)), dict(kind=name, top=enc(d)))
                     before = enc(dump(cp))
                     res0 = next(src.residues)
